@@ -112,8 +112,14 @@ Definition count (id : N) (u : bool) (lg : list (N * bool)) : N :=
    statuses of the BASELINE run without restart in which an Ensure happens at that moment (actions 1..j replayed on a
    fresh state, then the same policy), and how often each do / undo handler was started after the restart *)
 Inductive action := AE | AF (id : N).
-Inductive restart_obs := RObs (j : nat) (payload final_restart final_baseline : list (N * N)) (dos undos : list (N * N)).
-Inductive case := Case (graph : list (N * list N)) (c : cfg) (acts : list action) (final : list (N * N)) (rs : list restart_obs).
+(* [recorded]: the tasks whose handler, at the crash point, has recorded its step in the task data and released the state lock
+   (it is blocked in its unlocked section); [persisted]: those of them whose step is in the last payload *)
+Inductive restart_obs := RObs (j : nat) (payload final_restart final_baseline : list (N * N)) (dos undos : list (N * N))
+                              (recorded persisted : list N).
+(* [releases]: one entry per handler start of the run without restart: the task, and whether the step the handler recorded
+   before releasing the state lock was in the last payload at the moment it had released it (a crash right there) *)
+Inductive case := Case (graph : list (N * list N)) (c : cfg) (acts : list action) (final : list (N * N)) (rs : list restart_obs)
+                       (releases : list (N * bool)).
 
 Definition do_action (c : cfg) (s : st) (a : action) : st :=
   match a with AE => ensureF c s | AF id => finish c id s end.
@@ -130,13 +136,13 @@ Definition init_tasks (graph : list (N * list N)) (sts : list (N * N)) : list ta
 
 Definition mismatch (k : case) : bool :=
   match k with
-  | Case graph c acts final rs =>
+  | Case graph c acts final rs releases =>
       let s0 := mkSt (init_tasks graph []) [] [] in
       let fuel := settle_fuel (tasks s0) in
       negb (plist_eqb (statuses (settle fuel c s0)) final
             && plist_eqb (statuses (fold_left (do_action c) acts s0)) final
             && forallb (fun r => match r with
-                                 | RObs j payload finr finb dos undos =>
+                                 | RObs j payload finr finb dos undos _ _ =>
                                      let sj := fold_left (do_action c) (firstn j acts) s0 in
                                      let sr := settle fuel c (mkSt (tasks sj) [] []) in
                                      plist_eqb (statuses sj) payload
@@ -152,11 +158,13 @@ Definition do_finished (s : N) : bool := negb ((s =? 2) || (s =? 3) || (s =? 0))
 Definition undo_finished (s : N) : bool := (s =? 8) || (s =? 1) || (s =? 9).
 Definition monitor_fail (k : case) : bool :=
   match k with
-  | Case graph c acts final rs =>
+  | Case graph c acts final rs releases =>
       negb (forallb (fun r => match r with
-                              | RObs j payload finr finb dos undos =>
+                              | RObs j payload finr finb dos undos recorded persisted =>
                                   (* same outcome as the run without restart; nothing lost or duplicated *)
                                   plist_eqb finr finb && nlist_eqb (map fst payload) (map fst graph)
+                                  (* what a handler recorded before it released the lock is in the last payload *)
+                                  && forallb (fun id => mem id persisted) recorded
                                   && forallb (fun g =>
                                        let id := fst g in let ps := lookup payload id in
                                        (* finished work is not redone *)
@@ -165,7 +173,9 @@ Definition monitor_fail (k : case) : bool :=
                                        (* what was running is run again from the start *)
                                        && (negb (ps =? 3) || (1 <=? lookup dos id))
                                        && (negb (ps =? 7) || (1 <=? lookup undos id))) graph
-                              end) rs)
+                              end) rs
+            (* a crash inside a handler's unlocked section finds what the handler had recorded *)
+            && forallb (fun r => snd r) releases)
   end.
 
 (* ------------------------------------------------------------------ the persistence assumption, made explicit *)
@@ -194,15 +204,19 @@ Definition erase (we : wevent) : list event :=
    pseudo-randomly slow writes: for each Checkpoint call whether the state lock was held during the call ([locked]), the
    sequence markers of the payloads in the order in which the writes COMPLETED, the marker of the newest state, and the
    task statuses in memory at quiescence and in the payload whose write completed last *)
-Inductive ocase := OCase (locked : list bool) (completed : list N) (newest : N) (mem_statuses last_statuses : list (N * N)).
+(* [unpersisted]: how often a goroutine that had modified the state and released the lock (through Unlock or through Unlocker)
+   found that no completed write contained its modification *)
+Inductive ocase := OCase (locked : list bool) (completed : list N) (newest : N) (mem_statuses last_statuses : list (N * N))
+                         (unpersisted : N).
 
 Fixpoint increasing (lo : N) (l : list N) : bool :=
   match l with [] => true | x :: r => (lo <=? x) && increasing x r end.
 Definition omonitor_fail (k : ocase) : bool :=
   match k with
-  | OCase locked completed newest mem_sts last_sts =>
+  | OCase locked completed newest mem_sts last_sts unpersisted =>
       negb (forallb (fun b => b) locked                       (* every checkpoint is written with the state lock held *)
             && increasing 0 completed                         (* writes complete in the order of the unlocks *)
             && (last completed 0 =? newest)                   (* the last completed write is the newest state *)
-            && plist_eqb mem_sts last_sts)                    (* ... and shows the statuses that are in memory *)
+            && plist_eqb mem_sts last_sts                     (* ... and shows the statuses that are in memory *)
+            && (unpersisted =? 0))                            (* a release after a modification has checkpointed it *)
   end.
